@@ -521,3 +521,69 @@ MEM_EXCEPT = {
     ("M1", "vimakecompat"): "HDF 1.x/2.0 Vset converter that cannot get this far: oldunpackvg copies into the unallocated vg->vgname on the first "
                             "old-style Vgroup (replay triage/c16_vcompat_uaf.c: SIGSEGV before the flagged free); defect unrelated to I/O failures, see DESIGN.md",
 }
+
+
+def rule_handed_over_not_freed(ctx):
+    """OWNXFER (C16, C11): a loop that builds objects and hands each to an owning container (`tbbtdins` into a tree,
+    `HAregister_atom` into an atom group) keeps working pointers to the object under construction, and the routine's failure
+    cleanup frees those pointers.  After the hand-over they still point at the object the container now owns, so before the
+    next iteration can fail they are cleared (`p = NULL`) - otherwise a read error on the *next* annotation frees the previous
+    one under the tree, and the end routine reads and frees it again."""
+    from .codec import ast_walk
+    from .facts import calls_in, is_null
+    from .rules_loops import loops_of, loop_body, seq_of
+    prog = ctx.prog
+    n = 0
+    for f in prog.lib_funcs():
+        ast = f.raw.get("ast")
+        if not ast:
+            continue
+        # pointers freed under a `ret_value == FAIL` (or similar) cleanup at function level
+        freed = set()
+
+        def vis(nd, st):
+            if nd[0] == "if" and nd[1] is not None and any(x[0] == "var" and x[1] in ("ret_value", "ret") for x in walk(nd[1], True)):
+                for e, _k in seq_of(nd[2]):
+                    for c in calls_in(e, True):
+                        if c[1] in ("free", "HDfree") and c[3] and kind(strip(c[3][0])) == "var":
+                            freed.add(strip(c[3][0])[1])
+            return True
+
+        ast_walk(ast, vis)
+        if not freed:
+            continue
+        for lp, st in loops_of(f):
+            seq = seq_of(loop_body(lp))
+            handed = {}
+            for i, (e, nd) in enumerate(seq):
+                for c in calls_in(e, True):
+                    if c[1] in ("tbbtdins", "HAregister_atom"):
+                        for a in c[3]:
+                            a = strip(a)
+                            if kind(a) == "var" and a[1] in freed:
+                                handed[a[1]] = max(handed.get(a[1], -1), i)
+            for v, i in sorted(handed.items()):
+                n += 1
+                key = "OWNXFER:%s:%s" % (f.name, v)
+                line = seq[i][1][-3] if isinstance(seq[i][1][-3], int) else f.line
+                cleared = False
+                for e, nd in seq[i + 1:]:
+                    for x in walk(e, True):
+                        if x[0] == "asg" and x[1] == "=" and kind(strip(x[2])) == "var" and strip(x[2])[1] == v and is_null(x[3]):
+                            cleared = True
+                # a failing exit can follow the hand-over only if something after it in the iteration (or the next iteration
+                # before the pointer is re-assigned) can fail; a loop whose hand-over is its last fallible step and whose next
+                # iteration starts by assigning the pointer is fine too
+                first_assign_before_fail = False
+                for e, nd in seq:
+                    if any(x[0] == "asg" and x[1] == "=" and kind(strip(x[2])) == "var" and strip(x[2])[1] == v for x in walk(e, True)):
+                        first_assign_before_fail = True
+                        break
+                    if any(True for c in calls_in(e, True)):
+                        break
+                if cleared or first_assign_before_fail:
+                    ctx.holds("OWNXFER", key, f.where(line), "`%s` is %s after it has been handed to its container" % (v, "cleared" if cleared else "re-assigned before anything in the next iteration can fail"), nontrivial=True)
+                else:
+                    ctx.violated("OWNXFER", key, f.where(line), "`%s` is handed to a tree/atom group in the loop, freed by the failure cleanup, and not cleared after the hand-over: a failure in a later iteration frees an object the container owns" % v)
+    ctx.floor("OWNXFER", 3, n, "(working pointers handed to a container inside a loop and freed by the cleanup)")
+    return n
